@@ -1,5 +1,13 @@
 package rules
 
+import (
+	"fmt"
+
+	"golang.org/x/tools/go/ssa"
+
+	"verif/checker/core"
+)
+
 func init() {
 	add := func(prop, as, orig string, f func(*Ctx)) {
 		p := Properties[prop]
@@ -83,4 +91,155 @@ func init() {
 		p := Properties[sh.prop]
 		p.Rules = append(p.Rules, Rule{sh.as, func(c *Ctx) { runAs(c, sh.as, sh.orig, sh.f) }})
 	}
+}
+
+// A `return err` reached only where err is known to be nil is a success exit in disguise: the function stops half
+// way and reports success (an `err != nil` test written as `err == nil`). Package-wide; run for the properties
+// whose entry points decode, resolve or walk with early error returns.
+func init() {
+	for _, pid := range []string{"C03", "C05", "C15", "C17", "C18"} {
+		pid := pid
+		Properties[pid].Rules = append(Properties[pid].Rules, Rule{pid + "/no-success-in-disguise", func(c *Ctx) { ruleNoSuccessInDisguise(c, pid+"/no-success-in-disguise") }})
+	}
+}
+
+func ruleNoSuccessInDisguise(c *Ctx, rule string) {
+	n := 0
+	for _, fn := range c.P.Funcs {
+		if !c.P.InPkg(fn) || fn.Synthetic != "" {
+			continue
+		}
+		k := 0
+		core.EachInstr(fn, func(i ssa.Instruction) {
+			ret, ok := i.(*ssa.Return)
+			if !ok || len(ret.Results) == 0 || ret.Block() == fn.Recover {
+				return
+			}
+			ev := ret.Results[len(ret.Results)-1]
+			if !isErrorType(ev.Type()) {
+				return
+			}
+			if _, isConst := ev.(*ssa.Const); isConst {
+				return
+			}
+			n++
+			k++
+			knownNil := ""
+			for _, g := range guardsLocal(ret) {
+				x, kc, equal, ok := eqConst(g)
+				if !ok || !kc.IsNil() || !equal {
+					continue
+				}
+				// (the very same value: a named result is a variable, assigned again before each return)
+				if x == ev {
+					knownNil = c.pos(g.At)
+				}
+			}
+			// leaving a loop with whatever a call returned, nil included, ends the loop at the first element
+			_, directCall := ev.(*ssa.Call)
+			if ex, isEx := ev.(*ssa.Extract); isEx {
+				_, directCall = ex.Tuple.(*ssa.Call)
+			}
+			if knownNil == "" && directCall && returnLeavesLoop(ret) && !knownNonNil(ret, ev) {
+				c.R.Bad(rule, fmt.Sprintf("%s:return#%d:loop-left-on-success", core.FuncName(fn), k), c.pos(ret), "a loop is left by returning an error value that is not known to be non-nil (`return f(x)` inside the loop instead of `if err := f(x); err != nil { return err }`): when the value is nil the function reports success after the first element and the remaining elements are never looked at")
+			}
+			if knownNil != "" {
+				c.R.Bad(rule, fmt.Sprintf("%s:return#%d", core.FuncName(fn), k), c.pos(ret), "an error variable is returned where it is known to be nil (test at "+knownNil+"): the function stops there and reports success, so what follows (the remaining keywords of the document, the remaining schemas of the walk) is silently skipped")
+			}
+		})
+	}
+	// the same in the body of a range-over-func loop: `return x` there stores x in the enclosing function's result
+	// and stops the iteration (the body function returns false)
+	for _, fn := range c.P.Funcs {
+		if !c.P.InPkg(fn) || !isRangeFuncBody(fn) {
+			continue
+		}
+		k := 0
+		core.EachInstr(fn, func(i ssa.Instruction) {
+			ret, ok := i.(*ssa.Return)
+			if !ok || len(ret.Results) != 1 {
+				return
+			}
+			if kc, isConst := ret.Results[0].(*ssa.Const); !isConst || kc.Value == nil || kc.Value.String() != "false" {
+				return
+			}
+			for _, j := range ret.Block().Instrs {
+				st, isSt := j.(*ssa.Store)
+				if !isSt || !isErrorType(st.Val.Type()) {
+					continue
+				}
+				n++
+				k++
+				if kc, isConst := st.Val.(*ssa.Const); isConst && kc.IsNil() {
+					continue // `return nil` inside the loop: a deliberate early success
+				}
+				if !knownNonNil(ret, st.Val) {
+					c.R.Bad(rule, fmt.Sprintf("%s:return#%d:loop-left-on-success", core.FuncName(fn), k), c.pos(st), "a loop is left by returning an error value that is not known to be non-nil (`return f(x)` inside the loop instead of `if err := f(x); err != nil { return err }`): when the value is nil the function reports success after the first element and the remaining elements are never looked at")
+				}
+			}
+		})
+	}
+	c.R.OK(rule, "returns-examined", "", fmt.Sprintf("%d returns of an error variable examined: none is reached only where the variable is known to be nil", n))
+	c.R.Floor(rule, "returns of an error variable in the package", n, 20)
+}
+
+// returnLeavesLoop: the return is reached from inside a loop of its function (through straight-line blocks).
+func returnLeavesLoop(ret *ssa.Return) bool {
+	q := ret.Block()
+	for hops := 0; hops < 6; hops++ {
+		for _, s := range q.Succs {
+			if core.Reachable(s, q, nil) {
+				return true
+			}
+		}
+		if len(q.Preds) != 1 {
+			// a join: inside a loop if every predecessor is
+			if len(q.Preds) == 0 {
+				return false
+			}
+			for _, p := range q.Preds {
+				in := false
+				for _, s := range p.Succs {
+					if s != q && core.Reachable(s, p, nil) || core.Reachable(q, p, nil) {
+						in = true
+					}
+				}
+				if !in {
+					return false
+				}
+			}
+			return true
+		}
+		q = q.Preds[0]
+	}
+	return false
+}
+
+// knownNonNil: the error value returned is a freshly made error, or the return is guarded by a test that it is not nil.
+func knownNonNil(ret *ssa.Return, ev ssa.Value) bool {
+	for _, g := range guardsLocal(ret) {
+		x, kc, equal, ok := eqConst(g)
+		if ok && kc.IsNil() && !equal && (x == ev || sameVarValue(x, ev)) {
+			return true
+		}
+	}
+	for _, src := range append(traceSources(ev), ev) {
+		switch x := src.(type) {
+		case *ssa.Call:
+			switch core.CalleeKey(&x.Call) {
+			case "fmt.Errorf", "errors.New", "errors.Join":
+				continue
+			}
+			return false
+		case *ssa.MakeInterface:
+			continue // a concrete error value
+		case *ssa.Const:
+			if x.IsNil() {
+				return false
+			}
+		default:
+			return false
+		}
+	}
+	return true
 }
